@@ -1,5 +1,7 @@
 #!/bin/sh
 # usage: confirm_mutant.sh <scratch-worktree> <dir-with-patch.diff-and-demo.rs> [crate: pocket-db|pocket-types]
+# With RELEASE=1 the demonstration is run under `cargo test --release` (changes that exist only in a
+# production build); the existing suite is always run in the default (debug) profile.
 # Confirms in the scratch worktree: demo passes on the unchanged code; with the patch the
 # existing suite still passes and the demo fails. Leaves the worktree clean.
 set -u
@@ -10,7 +12,7 @@ git checkout -q -- . ; rm -f pocket-db/tests/demo_*.rs pocket-types/tests/demo_*
 mkdir -p $CRATE/tests
 cp "$M/demo.rs" $CRATE/tests/demo_mut.rs
 echo "== demo on unchanged code (expect pass)"
-cargo test --offline -p $CRATE ${FEAT:+--features $FEAT} --test demo_mut 2>&1 | grep -E "^test result|error(\[|:)" | head -5
+cargo test ${RELEASE:+--release} --offline -p $CRATE ${FEAT:+--features $FEAT} --test demo_mut 2>&1 | grep -E "^test result|error(\[|:)" | head -5
 git apply "$M/patch.diff" || { echo "PATCH DOES NOT APPLY"; rm -f $CRATE/tests/demo_mut.rs; exit 2; }
 echo "== existing suite with the patch (expect 58 pass)"
 mv $CRATE/tests/demo_mut.rs /tmp/demo_mut.rs.$$
@@ -19,7 +21,7 @@ echo "== build with --features verif"
 cargo build --offline -p pocket-db --features verif 2>&1 | grep -E "^error|Finished" | head -3
 mv /tmp/demo_mut.rs.$$ $CRATE/tests/demo_mut.rs
 echo "== demo with the patch (expect FAIL)"
-cargo test --offline -p $CRATE ${FEAT:+--features $FEAT} --test demo_mut 2>&1 | grep -E "^test result|error(\[|:)|panicked" | head -6
+cargo test ${RELEASE:+--release} --offline -p $CRATE ${FEAT:+--features $FEAT} --test demo_mut 2>&1 | grep -E "^test result|error(\[|:)|panicked" | head -6
 rm -f $CRATE/tests/demo_mut.rs
 git checkout -q -- .
 git status --short | grep -v "^?? OUT" | head
